@@ -14,6 +14,7 @@
    - the source-snippet reader with its process-wide memo is a state machine over a file oracle.
    Partial by nature: a fatal stack overflow is a runtime event; the tie to the real process is
    the correspondence run (child processes), see harness/cmd/vh/c07.go. *)
+From Errdef Require Proofs.C07ValueCycle.
 From Errdef Require Import Base.Str Base.Outcome Model.Tree Spec.Unfold Check.C06 Proofs.C06Proofs
   Model.Render07 Check.C07 Proofs.C07Proofs.
 
@@ -204,3 +205,13 @@ Example C07_source_example :
   map r_out (run_calls s_init [call fs0; call fsA]) = [Ok ""; Ok ""] /\
   map (fun r => available (r_post r)) (run_calls s_init [call fs0; call fsA]) = [Some false; Some false].
 Proof. vm_compute. repeat split; reflexivity. Qed.
+
+(* K12, stated about the model: outside the guard of C06's theorems the statement of C06/C07 is FALSE.  A cycle made
+   of value-kinded errors only (two struct values that reach each other through a shared pointer field), below an
+   errdef error: buildNode finds no address to track, and for EVERY amount of fuel the construction of the cause
+   tree does not finish - in Go: unbounded recursion, a fatal stack overflow in UnwrapTree, %+v, Node.LogValue and
+   json.Marshal.  The run exercises exactly this graph (class value-kind-only-cycle) and observes the crash. *)
+Theorem C07_value_kind_only_cycle_refuted :
+  exists g recv, forall fuel, Errdef.Model.Tree.build_cause_tree fuel g recv = None.
+Proof. exists Errdef.Proofs.C07ValueCycle.vcycle, 2%nat. exact Errdef.Proofs.C07ValueCycle.vcycle_unwrap_tree_diverges. Qed.
+Print Assumptions C07_value_kind_only_cycle_refuted.
